@@ -80,6 +80,13 @@ def run_pool(ctx, func, tasks, procs=None):
     procs = procs or min(16, os.cpu_count() or 4)
     if not tasks:
         return
+    # import the heavy solver stacks once in the parent: forked workers then share them, and a task timeout can
+    # never land inside a half-finished first import
+    for mod in ("cvxpy", "picos", "cvxopt", "scs", "clarabel", "scipy.linalg"):
+        try:
+            __import__(mod)
+        except Exception:
+            pass
     with mp.get_context("fork").Pool(procs) as pool:
         for res in pool.imap(_run, [(func, t) for t in tasks], chunksize=1):
             fold(ctx, res)
